@@ -414,7 +414,7 @@ Definition check_one (E : env) (now : Z) (c : dctx) (is_po : bool) (date : list 
   | Ok fixed =>
     match parse_date fixed with
     | Crash k => Crash k
-    | Err _ => Crash CValueError          (* a DateSyntaxError here would escape check_dates *)
+    | Err e => Err e                      (* a DateSyntaxError here escapes check_dates (no try around the second parse_date) *)
     | Ok st =>
       Ok ((if list_eqb date fixed then [] else [TInvalidFix date fixed])
           ++ (if (now <? stamp_minutes st * us_per_minute)%Z then [TFuture date] else [])
